@@ -675,6 +675,17 @@ def inline_new_helpers(F):
             if nb is not None:
                 b = dict(b, body=nb)
                 body, has_ret = nb, False
+        if has_ret:
+            # `return Err(e)` in a helper whose result is propagated with `?` leaves the caller with that error either way: such a helper is
+            # inlined like one that uses `?` (only under `?`, tail `Ok(v)` becomes `v`)
+            rets = [x for x in walk(body, into_closures=False) if x.get("k") == "Ret"]
+            def is_err(r):
+                e = r.get("e")
+                while isinstance(e, dict) and e.get("k") == "Block" and not e.get("stmts") and e.get("expr") is not None:
+                    e = e["expr"]
+                return isinstance(e, dict) and e.get("k") == "Call" and (callee(e) or "").split("::")[-1] == "Err"
+            if rets and all(is_err(r) for r in rets):
+                has_ret, has_try = False, True
         calls_self = any(x.get("k") in ("Call", "MCall") and ((callee(x) if x.get("k") == "Call" else x.get("def")) == b["path"]) for x in walk(body))
         if has_ret or calls_self or not all(p_.get("k") == "Bind" for p_ in b["params"]):
             continue
@@ -1301,6 +1312,80 @@ def simplify_lets(body):
             d = ctor_over_if(n["e"])
             if d is not None:
                 n["e"] = d
+    # (6) `(if c { Err(e) } else { Ok(v) })?` is `if c { return Err(e) } else { v }` (through blocks and else-if chains; the `?` of a block whose
+    #     every leaf is a result constructor)
+    def try_over_if(v):
+        pre, t = [], v
+        while isinstance(t, dict) and t.get("k") == "Block" and t.get("expr") is not None:
+            pre += list(t.get("stmts") or [])
+            t = t["expr"]
+        if not isinstance(t, dict):
+            return None
+        if t.get("k") == "Call" and len(t.get("args", [])) == 1 and (callee(t) or "").split("::")[-1] == "Err":
+            return {"k": "Block", "stmts": pre + [{"k": "Semi", "e": {"k": "Ret", "e": t, "ty": "!", "sp": t.get("sp")}, "sp": t.get("sp")}], "ty": "!", "sp": t.get("sp")}
+        if t.get("k") == "Call" and len(t.get("args", [])) == 1 and (callee(t) or "").split("::")[-1] == "Ok":
+            return {"k": "Block", "stmts": pre, "expr": t["args"][0], "ty": t["args"][0].get("ty"), "sp": t.get("sp")}
+        if t.get("k") == "If" and "e" in t and t["c"].get("k") != "Let":
+            a, b_ = try_over_if(t["t"]), try_over_if(t["e"])
+            if a is None or b_ is None:
+                return None
+            new_if = {"k": "If", "c": t["c"], "t": a, "e": b_, "ty": v.get("ty"), "sp": t.get("sp")}
+            return {"k": "Block", "stmts": pre, "expr": new_if, "ty": v.get("ty"), "sp": v.get("sp")} if pre else new_if
+        return None
+
+    def rewrite_try(n):
+        if isinstance(n, list):
+            for i, x in enumerate(n):
+                n[i] = rewrite_try(x)
+            return n
+        if not isinstance(n, dict):
+            return n
+        for k, v in list(n.items()):
+            if isinstance(v, (dict, list)):
+                n[k] = rewrite_try(v)
+        if n.get("k") == "Try" and isinstance(n.get("e"), dict):
+            inner = n["e"]
+            probe = inner
+            while isinstance(probe, dict) and probe.get("k") == "Block" and probe.get("expr") is not None:
+                probe = probe["expr"]
+            if isinstance(probe, dict) and probe.get("k") == "If":
+                d = try_over_if(inner)
+                if d is not None:
+                    return d
+        return n
+    body["body"] = root = rewrite_try(root)
+    # an `if c { return Err(e) } else { () }` left as a statement's expression: drop the empty else
+    for n in walk(root):
+        if n.get("k") == "If" and isinstance(n.get("e"), dict) and n["e"].get("k") == "Block" and not n["e"].get("stmts"):
+            ex = n["e"].get("expr")
+            if ex is None or (isinstance(ex, dict) and ex.get("k") == "Tup" and not ex.get("es")):
+                if n.get("ty") in ("()", None, "!") or ex is not None:
+                    pm_used_as_value = False
+                    # only when the `if` is a statement of its own (its value is not used): checked through the parent kind below
+                    n["_maybe_drop_else"] = True
+    for blk in walk(root):
+        if blk.get("k") == "Block" and blk.get("stmts"):
+            for st in blk["stmts"]:
+                e = st.get("e") if st.get("k") in ("ExprS", "Semi") else None
+                if isinstance(e, dict) and e.get("_maybe_drop_else"):
+                    del e["e"]
+    # (7) `if a { if b { X } }` (neither has an else, the inner `if` is all the outer one contains) is `if a && b { X }`
+    changed = True
+    while changed:
+        changed = False
+        for n in walk(root):
+            if n.get("k") == "If" and "e" not in n and n["c"].get("k") != "Let" and isinstance(n.get("t"), dict) and n["t"].get("k") == "Block":
+                t = n["t"]
+                inner = None
+                if not t.get("stmts") and isinstance(t.get("expr"), dict) and t["expr"].get("k") == "If":
+                    inner = t["expr"]
+                elif len(t.get("stmts") or []) == 1 and t.get("expr") is None and t["stmts"][0].get("k") in ("ExprS", "Semi") and isinstance(t["stmts"][0].get("e"), dict) \
+                        and t["stmts"][0]["e"].get("k") == "If":
+                    inner = t["stmts"][0]["e"]
+                if inner is not None and "e" not in inner and inner["c"].get("k") != "Let":
+                    n["c"] = {"k": "Bin", "op": "And", "l": n["c"], "r": inner["c"], "ty": "bool", "sp": n["c"].get("sp")}
+                    n["t"] = inner["t"]
+                    changed = True
     # (5) `return if c { A } else { B };` as a statement is `if c { return A } else { return B }` (recursively through else-if chains)
     def ret_over_if(v):
         t = v
